@@ -748,3 +748,60 @@ Proof.
   intros Hi. unfold py_and, py_or, py_xor, py_invert.
   rewrite Z.land_spec, Z.lor_spec, Z.lxor_spec, Z.lnot_spec by assumption. repeat split.
 Qed.
+
+(* ------------------------------------------------------------------------------------------ *)
+(* the program PUSH operands ; OP  (what the correspondence check runs) versus [exec]           *)
+(* ------------------------------------------------------------------------------------------ *)
+
+Definition literal_ok (v : val) : bool :=
+  match v with
+  | VInt _ | VTs _ | VBytes _ | VBool _ => true
+  | VNat z => 0 <=? z
+  | VMutez z => in_mutez z
+  | _ => false
+  end.
+
+Lemma push_ok v : literal_ok v = true -> push v = Ok v.
+Proof.
+  destruct v; cbn [literal_ok push]; intros H; try reflexivity; try discriminate.
+  - rewrite mk_nat, H. reflexivity.
+  - rewrite mk_mutez. unfold ref_mutez. rewrite H. reflexivity.
+Qed.
+
+Lemma push_bad v : literal_ok v = false -> push v = Reject.
+Proof.
+  destruct v; cbn [literal_ok push]; intros H; try reflexivity; try discriminate.
+  - rewrite mk_nat, H. reflexivity.
+  - rewrite mk_mutez. unfold ref_mutez. rewrite H. reflexivity.
+Qed.
+
+Lemma push_all_ok l : forallb literal_ok l = true -> push_all l = Ok l.
+Proof.
+  induction l as [|v r IH]; intros H; [reflexivity|].
+  cbn [forallb] in H. apply andb_prop in H. destruct H as [H1 H2].
+  cbn [push_all]. rewrite (push_ok v H1), (IH H2). reflexivity.
+Qed.
+
+Lemma push_all_bad l : forallb literal_ok l = false -> push_all l = Reject.
+Proof.
+  induction l as [|v r IH]; intros H; [discriminate|].
+  cbn [forallb] in H. cbn [push_all]. destruct (literal_ok v) eqn:E.
+  - rewrite (push_ok v E). cbn [bind]. rewrite (IH H). reflexivity.
+  - rewrite (push_bad v E). reflexivity.
+Qed.
+
+Lemma literal_ok_wf l : forallb literal_ok l = true -> forallb wf_val l = true.
+Proof.
+  induction l as [|v r IH]; intros H; [reflexivity|].
+  cbn [forallb] in *. apply andb_prop in H. destruct H as [H1 H2]. rewrite (IH H2), andb_true_r.
+  destruct v; cbn [literal_ok wf_val] in *; try reflexivity; try exact H1; discriminate.
+Qed.
+
+Theorem run_exact o lits r : forallb literal_ok lits = true -> Ref o lits r -> run o lits = r.
+Proof.
+  intros H HR. unfold run. rewrite (push_all_ok lits H). cbn [bind].
+  apply exec_exact; [apply literal_ok_wf; exact H | exact HR].
+Qed.
+
+Theorem run_invalid_literal o lits : forallb literal_ok lits = false -> run o lits = Reject.
+Proof. intros H. unfold run. rewrite (push_all_bad lits H). reflexivity. Qed.
